@@ -3,7 +3,6 @@
 def register(add, PENDING):
     PENDING.update({
         "C18": "simulation target per DESIGN.md 5 real mode; check not built yet, therefore not claimed",
-        "C33": "simulation target per DESIGN.md 8 (allocator seam); check not built yet, therefore not claimed",
         "C36": "simulation target per DESIGN.md 5 real mode; check not built yet, therefore not claimed",
     })
 
@@ -27,3 +26,8 @@ def register(add, PENDING):
         "DESIGN.md 7, 9/C15",
         "Thousands of repeated commits per batch shape (N<=3 quick, N<=4 and N=8 thorough; every k in 1..N) on real leaf proofs with the simulator supplying the random stream: exactness of slot contents on every stream, seam closure (same seed => same commit), freshness and independence of preimages, canonicity with the rejection loop actually driven, uniformity of the slot arrangement by Pearson chi-square, plus own-source runs that exercise the shipped entropy source so a degraded generator is not masked by the hook. Public batches: supplied order then templates.",
         "Trusted: the harness, the guarded RNG wrapper and witness accessors, plonky2's PartialWitness as the record of what will be proved. Uniformity is statistical (p = 1e-9 per test); own-source runs use real entropy and are the only part that is not a pure function of VERIF_SEED.")
+
+    add("C33", "exploration", "allocator seam: simulator-owned global allocator decides realloc placement adversarially (always moves) and scans every freed block for live secrets, over seeded secret-handling call sequences with seeded drop order",
+        "DESIGN.md 8, 9/C33",
+        "Hundreds of thousands of seeded sequences (5-60 calls) over the whole secret-handling surface (constructors, hashing, both serialisations and their error paths, equality, drop) run under an allocator the simulator owns; a freed block containing a live secret is a violation unless it is byte-for-byte the documented upstream pad buffer; Secret::new must zero the caller's buffer on Ok and Err. Weakest fit of the claimed properties: there is no clock or I/O here, the environment the property depends on is allocator placement and the history of calls and drops.",
+        "Trusted: the harness allocator (with a built-in canary that must be caught in every run and a reach probe on the exempt upstream block), zero-on-alloc while simulating, typed exactly-sized boxes for pooled objects so the harness itself never moves a secret out of a heap slot. Stack copies and plonky2's PartialWitness are out of scope as in sensitive.rs.")
